@@ -25,7 +25,9 @@ ASSUME = ["the region map (where to corrupt) comes from the library's own header
           "a flag selection is only judged on archives that carry the attribute it names: FILE_MD5 alone on a CRC32-only archive has nothing to compare; SECTOR_CRC alone is not driven through the "
           "C API (the statement's verifier for sector checksums is read_file, judged by the vh-mpq worker)",
           "an archive behind a prefix is the prefix-free build with foreign bytes put in front (all stored offsets are relative to the archive start); the prefix bytes themselves are not protected and are not altered",
-          "SFileVerifyArchive(ALL_FILES) is not used: it deadlocks on its own lock (C19 finding)"]
+          "SFileVerifyArchive(ALL_FILES) is driven as a verifier of its own (flag selection 'SFileVerifyArchive(ALL_FILES)') since its self-deadlock was repaired (79e1b4e); user files of every other "
+          "unsigned configuration carry names that only look like special files ('(old) notes.txt', 'maps\\arena (copy)'); archives with attributes hold a zero-length file whose attributes must verify",
+          "a signed archive followed by foreign bytes in the same file (short tail, padding to a 4096 multiple) is the unmodified archive: it must verify"]
 
 
 def run(tier, seed, scratch, t0):
